@@ -48,4 +48,27 @@ Dev_ComplexPartSeverityDropped(outcome, ctx, sev, wclass) ==
 
 (* the read "fails" exactly when the reference tool exits 1 *)
 ExitOf(sev) == IF sev <= SEV_INCOMPLETE THEN 1 ELSE 0
+
+(* ---- C03: a single violation in one instance of an otherwise conforming file ---- *)
+FaultClasses == {"few", "many", "wrongkind", "unknown_kw", "abstract_kw", "bad_enum", "star_not_derived",
+                 "value_for_derived", "missing_aggr", "dangling_ref", "wrongtype_ref", "select_outside",
+                 "dup_id", "unterminated_inst", "unterminated_str"}
+(* literal classes that are clearly not a value of an attribute kind (ambiguous pairs such as an integer literal *)
+(* for a REAL or an untyped literal for a SELECT over defined types are deliberately left out)                  *)
+WrongLits(kind) ==
+  CASE kind = "int"  -> {"real", "str", "bin", "enum", "ref", "list"}
+    [] kind = "real" -> {"str", "bin", "enum", "ref", "list"}
+    [] kind = "num"  -> {"str", "bin", "enum", "ref", "list"}
+    [] kind = "str"  -> {"int", "real", "bin", "enum", "ref", "list"}
+    [] kind = "bin"  -> {"int", "real", "str", "enum", "ref", "list"}
+    [] kind \in {"bool", "log", "enum"} -> {"int", "real", "str", "bin", "ref", "list"}
+    [] kind = "ref"  -> {"int", "real", "str", "bin", "enum", "list"}
+    [] kind = "sel"  -> {"real", "bin", "enum", "list"}
+    [] kind = "li"   -> {"int", "str", "enum", "ref", "strlist"}
+    [] kind = "lr"   -> {"int", "str", "enum", "intlist"}
+(* the part of the file a violation may damage: the instance itself; for an unterminated instance also the text *)
+(* up to the next ";" outside a string (the following instance); for an unterminated string the rest of the file *)
+Region(class) == IF class = "unterminated_inst" THEN "next" ELSE IF class = "unterminated_str" THEN "eof" ELSE "inst"
+(* C03: never clean, reference tool exits non-zero; every conforming instance outside the region keeps its values *)
+Detected(sev, exit) == sev < SEV_USERMSG /\ exit = 1
 =============================================================================
